@@ -5,7 +5,8 @@ from ._machine_prop import make
 ID = "C08"
 RULE = (
     "Walks on tracks with segmentation, any subset of {ellipse_axis_radii, circularity, perimeter} "
-    "enabled next to area/position, scale None / isotropic / anisotropic. After construction and "
+    "enabled next to area/position, scale None / isotropic / anisotropic; shape features are also "
+    "disabled and re-enabled in the middle of a history. After construction and "
     "every step, for every node and enabled key: stored == independent reference on the current "
     "mask (area = count*voxel, position = mean index*spacing; perimeter via skimage.perimeter / "
     "marching cubes called by the harness; circularity/sphericity and inertia axes from own "
@@ -16,7 +17,8 @@ RULE = (
 ASSUMPTIONS = ["2D perimeter/circularity only with isotropic spacing (skimage raises otherwise)",
                "3D masks for which marching cubes / inertia axes are undefined are not generated (excluded counter)"]
 REQUIRED_CLASSES = {t: ["mask_change:grown", "mask_change:shrunk", "mask_change:new", "bulk_differential",
-                        "cfg:scale=anisotropic", "cfg:3D", "cfg:opt=perimeter", "cfg:opt=ellipse_axis_radii"]
+                        "cfg:scale=anisotropic", "cfg:3D", "cfg:opt=perimeter", "cfg:opt=ellipse_axis_radii",
+                        "re_enable_feature"]
                     for t in ("quick", "thorough")}
 run_shard, replay, minimise = make(C08Oracle, quick=(1600, 25), thorough=(3200, 40), profile="paint",
                                    cfg_kwargs={"seg": True})
